@@ -20,3 +20,22 @@ PROPS["C16"] = dict(
     technique="Lean 4 proof (reals) + exact dyadic evaluation in Lean of the property relations on implementation outputs",
     assumptions=["libm sin/cos/atan2 accuracy is measured, not proved", "TwoSum contract is checked exactly per sampled pair, not proved for all pairs"],
 )
+
+PROPS["C18"] = dict(
+    harnesses=[dict(name="C18", procs_quick=2, procs_thorough=16)],
+    rule=("positions: cell edges of each scheme at random level ±0..3 ulp, poles, lon ±180/±540/1e17, uniform; all precisions incl. "
+          "out-of-range (clamped); decoder inputs: encoder outputs (random case), single-character mutations (incl. NUL, space, "
+          "high-bit bytes, I/O), insert/delete, random alphabet strings, INVALID forms; non-trivial = accepted (no exception); "
+          "distinct = distinct (op, leading bits of arguments)"),
+    tolerances={"forward strings": "equal to the code of the exact containing cell (exact dyadic arithmetic in Lean); the coded cell of the one-rounding model is reported as sliver class F2",
+                "reverse values": "bit-equal to the F64 model or within 2^-48 relative of the exact centre/corner"},
+    level_text=("Theorems (integer level, all inputs): decode∘encode and alphabet/prefix laws for the codecs (see Props/C18.lean). The single floating "
+                "rounding in front of the integer codec is modelled in an exact binary64 softfloat and every sampled implementation output is "
+                "compared in Lean with (a) the code of the exact containing cell and (b) the modelled cell; decoders are compared on accept/reject, "
+                "precision and value. Harness oracles on the implementation: alphabet, prefix law, decode∘encode, re-encode, case-insensitivity, "
+                "accepted-string-is-a-code, outputs untouched on throw."),
+    level_note=("alphabets and integer constants of all four classes regenerated from the sources each run; hand-written models of Forward/Reverse; "
+                "pow(10,k) and integer→double conversions assumed exact (they are, for the ranges used)"),
+    technique="Lean 4 proof of the integer codecs + exact-arithmetic correspondence of the scaling step and decoders against the implementation",
+    assumptions=["glibc pow(10, k), k ≤ 11, is exact"],
+)
